@@ -16,6 +16,13 @@ ASSUMPTIONS = ["get_unchecked's contract (caller already happens-after an observ
 
 def run(ctx, broken):
     res = {"evaluations": 0, "distinct_nontrivial": 0, "rule": "", "samples": [], "disagreements": [], "failures": [], "extra": {}}
+    ordering_oracle(ctx, broken, res)
+    return run_rest(ctx, broken, res)
+
+
+def ordering_oracle(ctx, broken, res):
+    """the requirement on the memory orderings of src/boxcar.rs, evaluated on the translated table (also used by C08:
+    a publication that is not release/acquire lets a lookup return an item that is not completely written)"""
     # the translated table: every boxcar site present, with its orderings
     gen = open(os.path.join(vlib.COQ, "Gen", "GenOrderings.v")).read()
     rows = re.findall(r'\("src/boxcar.rs", "(\w+)", "(\w+)", "(\w+)", (\d+), \[([^\]]*)\]\)', gen)
@@ -102,6 +109,16 @@ def run(ctx, broken):
                 need = text
         if need:
             res["failures"].append({"class": "ordering", "what": "src/boxcar.rs %s: %s #%s has ordering %s: %s; racing execution: see the matching C09_need_* lemma / C09_pinned_races in coq/Props/C09.v (writer publishes a bucket or entry, reader observes it through this access and touches memory initialised by non-atomic writes it does not happen-after)" % (fun(fn), site(field, op), k, ords, need), "site": [fn, field, op, k, ords], "identifiers": {"fn": real_fn.get(fn, fn), "field": real_field.get(field, field)}})
+    res["extra"]["_rows"] = [list(r) for r in rows[:5]]
+    res["extra"]["_nrows"] = len(rows)
+    res["extra"]["_nconstrained"] = len(constrained)
+    return res
+
+
+def run_rest(ctx, broken, res):
+    rows5 = res["extra"].pop("_rows", [])
+    nrows = res["extra"].pop("_nrows", 0)
+    nconstrained = res["extra"].pop("_nconstrained", 0)
     # program structure: the scheduled histories of C08 (sites in program order) - small batch
     hist = bcommon.histories(ctx["seed"] + 500, "quick")[:60]
     recs, errs = bcommon.run(ctx, hist)
@@ -135,8 +152,8 @@ def run(ctx, broken):
         if m.get("race"):
             res["failures"].append({"class": "miri", "what": "Miri reports a data race in the two-thread probe: " + m["race"][:300]})
     res["rule"] = ("every atomic access site of src/boxcar.rs as translated into Gen/GenOrderings.v (%d rows; %d of them constrained by orderings_ok) is checked against the conjunction the race-freedom theorem needs, "
-                   "independently of the Coq predicate; 60 scheduled histories tie the order of the yield-point sites; thorough tier additionally runs a two-thread get/extend probe under Miri." % (len(rows), len(constrained)))
-    res["samples"] = [{"site": list(r)} for r in rows[:5]]
+                   "independently of the Coq predicate; 60 scheduled histories tie the order of the yield-point sites; thorough tier additionally runs a two-thread get/extend probe under Miri." % (nrows, nconstrained))
+    res["samples"] = [{"site": list(r)} for r in rows5]
     return res
 
 
